@@ -167,3 +167,62 @@ def run(R, tu, rule):
         else:
             R.ob(rule, "%s: decoded results are the definition's" % f, True)
     return n
+
+
+def run_dt(R, P, rule):
+    """date-times: month / quarter / year steps taken one after the other in one invocation compose -- dt_dtadd folded twice, then
+    the print-time fix-up, against one step of the sum (the day is carried lazily between the steps and cropped at the end only)"""
+    dtu = P.tu("libdut_a-dt-core.o")
+    libs = [dtu, P.tu("libdut_a-date-core.o"), P.tu("libdut_a-time-core.o")]
+    fadd, ffix = dtu.func("dt_dtadd"), dtu.func("dt_fixup")
+    if fadd is None or ffix is None:
+        raise AnalysisBroken("%s: dt_dtadd / dt_fixup vanished" % rule)
+    R.saw(fadd)
+    R.saw(ffix)
+
+    def resolve(name):
+        for l in libs:
+            f = l.func(name)
+            if f is not None and getattr(f, "body", None) is not None:
+                return f
+        return None
+    fold.RESOLVE["fn"] = resolve
+    E = {k: dtu.enum_value(k) for k in ("DT_YMD", "DT_HMS", "DT_DURMO", "DT_DURYR", "DT_DURQU")}
+    tabs = {}
+
+    def call(fn, *args):
+        fo = fold.Folder(fn, calls={}, inline=True, max_steps=600000)
+        fo._tabs = tabs
+        return fo.run([dict(a) for a in args])
+    n = 0
+    bad = []
+    try:
+        for (y, m, d) in ((2012, 1, 31), (2012, 2, 29), (2011, 3, 31), (2012, 8, 31), (2012, 12, 31), (2012, 5, 30)):
+            src = {"typ": E["DT_YMD"], "sandwich": 1, "d.typ": E["DT_YMD"], "d.ymd.y": y, "d.ymd.m": m, "d.ymd.d": d,
+                   "t.typ": E["DT_HMS"], "t.hms.h": 10, "t.hms.m": 0, "t.hms.s": 0, "t.hms.ns": 0}
+            for unit, mult in (("DT_DURMO", 1), ("DT_DURQU", 3), ("DT_DURYR", 12)):
+                for a in (-3, -1, 1, 2, 4):
+                    for b in (-2, 1, 3):
+                        if a + b == 0:
+                            continue
+                        dur = lambda v: {"d.durtyp": E[unit], "d.dv": v, "neg": 0}
+                        two = call(ffix, call(fadd, call(fadd, src, dur(a)), dur(b)))
+                        one = call(ffix, call(fadd, src, dur(a + b)))
+                        n += 2
+                        g2 = tuple(two.get(k) for k in ("d.ymd.y", "d.ymd.m", "d.ymd.d", "t.hms.h"))
+                        g1 = tuple(one.get(k) for k in ("d.ymd.y", "d.ymd.m", "d.ymd.d", "t.hms.h"))
+                        tot = y * 12 + (m - 1) + (a + b) * mult
+                        ey, em = tot // 12, tot % 12 + 1
+                        exp = (ey, em, min(d, _mdays(ey, em)), 10)
+                        if g1 != exp or g2 != exp:
+                            bad.append(("%04d-%02d-%02dT10:00:00" % (y, m, d), "%+d then %+d %s" % (a, b, unit[6:].lower()), g2, g1, exp))
+    except NotConst as e:
+        raise AnalysisBroken("%s: dt_dtadd left the foldable fragment (%s)" % (rule, e))
+    if bad:
+        x, what, g2, g1, exp = bad[0]
+        R.finding(rule, fadd, "month / year steps on date-times, decoded", "%d of %d (start, step, step) cases do not compose; first: %s %s gives %s, "
+                  "in one step %s, the calendar says %s" % (len(bad), n // 2, x, what, g2, g1, exp))
+    else:
+        R.ob(rule, "dt_dtadd on date-times: %d pairs of month / quarter / year steps from month ends give what the sum gives in one step (the "
+             "day cropped at the end only)" % (n // 2), True)
+    return n
